@@ -85,6 +85,21 @@ func Run(kind string, t gwc.Target, units [][]byte) Result {
 	return r
 }
 
+// RunOn sends the units on an already opened transport and collects until the tunnel ends.
+func RunOn(c gwc.Conn, units [][]byte) Result {
+	defer c.Close()
+	var sendErr string
+	for _, u := range units {
+		if err := c.Send(u); err != nil {
+			sendErr = err.Error()
+			break
+		}
+	}
+	r := Collect(c, EndWait)
+	r.SendErr = sendErr
+	return r
+}
+
 // Decode strictly decodes all packets; the first error is returned with its index.
 func Decode(pkts [][]byte) ([]tsgu.Resp, error) {
 	var out []tsgu.Resp
